@@ -52,6 +52,7 @@ fn main() {
             policy: Policy::Assume,
             layout: LAYOUT_K256,
             final_timeout_ms: if thorough { 60000 } else { 10000 },
+            cross_check: thorough || std::env::var("SYMFROST_CROSS").is_ok(),
             ..RunCfg::default()
         };
         let body = || {
